@@ -344,7 +344,27 @@ def gen_edge_case(rng):
     W, H = rng.choice([(40, 120), (120, 40), (30, 150), (150, 30), (60, 90), (90, 60), (64, 64)])
     sw = rng.choice([6, 10, 16, 24])
     dx, dy = 0, 0
-    kind = rng.below(10)
+    kind = rng.below(11)
+    if kind == 10:
+        # a pattern whose content needs a mask / clip / filter / opacity layer, used by a shape inside an isolated group near a
+        # canvas corner, the tile larger than what is left of the canvas (seeded change C13-12)
+        W = H = 200
+        T = rng.choice([60, 100, 140])
+        eff = rng.choice(['mask="url(#m)"', 'clip-path="url(#c)"', 'filter="url(#f)"', 'opacity="0.6"', 'mask="url(#m)" opacity="0.8"'])
+        defs = ('<mask id="m" maskUnits="userSpaceOnUse" x="0" y="0" width="%d" height="%d"><rect width="%d" height="%d" fill="white"/><circle cx="%d" cy="%d" r="%d" fill="black"/></mask>'
+                '<clipPath id="c"><circle cx="%d" cy="%d" r="%d"/></clipPath>'
+                '<filter id="f" filterUnits="userSpaceOnUse" x="0" y="0" width="%d" height="%d"><feOffset dx="3" dy="2"/></filter>'
+                % (T, T, T, T, T // 2, T // 2, T // 4, T // 2, T // 2, T // 2 - 4, T, T))
+        px, py = rng.choice([(100, 100), (0, 0), (40, 130), (130, 30)])
+        defs += ('<pattern id="p" patternUnits="userSpaceOnUse" x="%d" y="%d" width="%d" height="%d"><g %s><rect width="%d" height="%d" fill="#d22"/>'
+                 '<rect x="%d" y="0" width="%d" height="%d" fill="#22d"/></g></pattern>' % (px, py, T, T, eff, T, T, T // 2, T // 2, T))
+        rx, ry = rng.choice([(150, 150), (10, 10), (150, 10), (10, 150), (80, 80)])
+        grp = rng.choice(['opacity="0.9"', 'style="isolation:isolate"', 'opacity="0.9" transform="translate(5 3)"'])
+        body = '%s<g %s><rect x="%d" y="%d" width="40" height="40" fill="url(#p)"/></g>' % (defs, grp, rx, ry)
+        dx, dy = rng.below(71) - 35, rng.below(71) - 35
+        if dx == dy:
+            dy += 1
+        return ('<svg %s width="%d" height="%d">%s</svg>' % (NS, W, H, body)), "native:1:0:0", dx, dy
     if kind == 9:
         # a long dashed two-point line that starts far outside the canvas and ends inside it (seeded change C13-9): the
         # dash phase is a function of user-space length and must not depend on where the canvas cuts the line
@@ -480,6 +500,38 @@ def gen_dot_doc(rng):
         inner = '<g id="outer">%s</g>' % inner
     sib = rng.choice(['', '<rect x="2" y="2" width="6" height="6" fill="#111"/>'])
     return '<svg %s width="%d" height="%d"><g>%s%s</g></svg>' % (NS, W, H, sib, inner)
+
+
+def gen_clipped_child_doc(rng):
+    """a group (receiving isolation / opacity) with a child group whose clip-path or mask definition carries its own
+    transform or objectBoundingBox units (seeded change C14-12: the parent's layer box tightened by a mis-placed clip box)"""
+    W = H = 200
+    k = rng.below(6)
+    tx, ty = 40 + rng.below(40), 30 + rng.below(40)
+    if k == 0:
+        defs = '<clipPath id="c" clipPathUnits="objectBoundingBox"><rect x="0" y="0" width="1" height="%s"/></clipPath>' % rng.choice(['0.5', '0.8', '1'])
+        attr = 'clip-path="url(#c)"'
+    elif k == 1:
+        defs = '<clipPath id="c" transform="translate(%d %d)"><rect x="0" y="0" width="80" height="80"/></clipPath>' % (tx, ty)
+        attr = 'clip-path="url(#c)"'
+    elif k == 2:
+        defs = '<clipPath id="c" transform="translate(%d %d) scale(%s)"><circle cx="30" cy="30" r="30"/></clipPath>' % (tx, ty, rng.choice(['1.5', '2', '0.8']))
+        attr = 'clip-path="url(#c)"'
+    elif k == 3:
+        defs = '<clipPath id="c" clipPathUnits="objectBoundingBox" transform="translate(0.2 0.1)"><rect width="0.7" height="0.7"/></clipPath>'
+        attr = 'clip-path="url(#c)"'
+    elif k == 4:
+        defs = ('<mask id="m" maskContentUnits="objectBoundingBox"><rect x="0.1" y="0.1" width="0.8" height="0.8" fill="white"/></mask>')
+        attr = 'mask="url(#m)"'
+    else:
+        defs = ('<mask id="m" maskUnits="userSpaceOnUse" x="%d" y="%d" width="110" height="110"><g transform="translate(%d %d)"><rect width="100" height="100" fill="white"/></g></mask>'
+                % (tx, ty, tx + 5, ty + 5))
+        attr = 'mask="url(#m)"'
+    child_t = rng.choice(['', ' transform="translate(%d %d)"' % (rng.below(21) - 10, rng.below(21) - 10), ' transform="rotate(%d 100 100)"' % (rng.below(41) - 20)])
+    child = '<g %s%s><rect x="60" y="60" width="120" height="120" fill="#208040" stroke="#102010" stroke-width="6"/></g>' % (attr, child_t)
+    sib = rng.choice(['<rect x="10" y="10" width="30" height="30" fill="#2060c0"/>', '', '<circle cx="20" cy="180" r="8" fill="#c22"/>'])
+    parent = rng.choice(['', ' opacity="0.9"', ' id="par"'])
+    return '<svg %s width="%d" height="%d">%s<g%s>%s%s</g></svg>' % (NS, W, H, defs, parent, sib, child)
 
 
 def gen_tiny_doc(rng):
